@@ -193,6 +193,10 @@ let handle = function
            | Inl _ -> out_tree r (forget t) false ^ " CRASH free of the result"
            | Inr h2 -> out_tree r (forget t) false ^ Printf.sprintf " leak=%d" (if h_live h2 = [] then 0 else 1)))
      | _ -> "?")
+  | ["cmp"; ah; bh] ->
+    let a = parse_json (str_of_hex ah) in
+    let b = parse_json (str_of_hex bh) in
+    Printf.sprintf "eq=%d rev=%d" (if nodes_eq fo a b then 1 else 0) (if nodes_eq fo b a then 1 else 0)
   | [] -> ""
   | _ -> "?"
 let () = main_loop handle
